@@ -344,8 +344,8 @@ S_BOTP = st.fixed_dictionaries({
 
 def tests(tier):
     return [
-        Test("bashhash", S_BASHHASH, run_bashhash, {"quick": 3000, "thorough": 60000}, CFG),
-        Test("prg", S_PRG, run_prg, {"quick": 3000, "thorough": 60000}, CFG),
-        Test("brng", S_BRNG, run_brng, {"quick": 3000, "thorough": 60000}, CFG),
-        Test("botp", S_BOTP, run_botp, {"quick": 3000, "thorough": 60000}, CFG),
+        Test("bashhash", S_BASHHASH, run_bashhash, {"quick": 7500, "thorough": 75000}, CFG),
+        Test("prg", S_PRG, run_prg, {"quick": 7500, "thorough": 75000}, CFG),
+        Test("brng", S_BRNG, run_brng, {"quick": 7500, "thorough": 75000}, CFG),
+        Test("botp", S_BOTP, run_botp, {"quick": 7500, "thorough": 75000}, CFG),
     ]
